@@ -34,3 +34,37 @@ Theorem C04_pinned_refuted :
   ~ (forall s, reachable false ex_s0 s -> snapshots_ok s).
 Proof. exact C04_legacy_refuted. Qed.
 Print Assumptions C04_pinned_refuted.
+
+(* ==== the thread-level theorem WITH CONTENTS: every execution of the lock protocol (any number of reader and writer threads,
+   any schedule, repaired protocol) projects onto a history of the storage engine with read transactions; the release bound each
+   writer computed when it began is safe for the readers open when it commits (it is NOT always the bound at commit time --
+   computed schedules in ConcEngine -- but never exceeds the safe one); hence at every point of the execution each registered
+   reader thread still finds its snapshot byte-identical on the current disk, reading exactly the reference contents after the
+   transactions committed before it registered, and the current state is the reference after all commits in commit order.
+   Side conditions: g_ok (the engine's fuels for the projected transactions). ==== *)
+From Coq Require Import NArith.
+From Jamm Require Bytes Engine EngineAbs EngineOwnDefs EngineR EngineReadersInv EngineReaders ConcEngine.
+Theorem C04_every_schedule_readers_see_one_committed_state : forall (ops_of : nat -> list Engine.op * list Bytes.bytes) (c0 : nat)
+    (ts : list Conc.thread) (st0 : Engine.db) (sched : list nat) (h' : EngineR.hstate),
+  Conc.initial_threads ts -> EngineReadersInv.db_okr st0 -> Engine.d_tx st0 = N.of_nat c0 ->
+  let s0 := Conc.init c0 ts in
+  let es := ConcEngine.project ops_of s0 ConcEngine.ghost0 sched in
+  let s := Conc.run true s0 sched in
+  let g := ConcEngine.ghost_run ops_of s0 ConcEngine.ghost0 sched in
+  ConcEngine.g_ok (st0, nil) es -> ConcEngine.run_g (st0, nil) es = Engine.Ok h' ->
+  (forall (j : nat) (t : Conc.thread), nth_error (Conc.threads s) j = Some t -> Conc.reader_active (Conc.t_pc t) = true ->
+     exists r : EngineR.reader,
+       nth_error (snd h') (ConcEngine.index_of j (ConcEngine.owners g)) = Some r /\
+       Engine.d_tx r = N.of_nat (Conc.t_hdr t) /\ c0 <= Conc.t_hdr t <= Conc.cur s /\
+       (forall p : N, In p (EngineReaders.snap r) ->
+          Engine.dget (Engine.d_disk (fst h')) p = Engine.dget (Engine.d_disk r) p) /\
+       EngineOwnDefs.fpg 16 (Engine.d_disk (fst h')) (Engine.d_root r) = EngineOwnDefs.Rof r /\
+       EngineAbs.abs_bucket 16 (Engine.d_disk (fst h')) (Engine.d_root r) (Engine.d_next r) = EngineAbs.abs_db r /\
+       EngineAbs.abs_db (EngineR.reader_view (fst h') r) = EngineAbs.abs_db r /\
+       EngineAbs.abs_db r = ConcEngine.sem_commits (firstn (Conc.t_hdr t - c0) (ConcEngine.txs_of es)) (EngineAbs.abs_db st0)) /\
+  length (snd h') = length (ConcEngine.owners g) /\
+  EngineReadersInv.db_okr (fst h') /\ Engine.d_tx (fst h') = N.of_nat (Conc.cur s) /\
+  Conc.cur s = c0 + length (ConcEngine.txs_of es) /\
+  EngineAbs.abs_db (fst h') = ConcEngine.sem_commits (ConcEngine.txs_of es) (EngineAbs.abs_db st0).
+Proof. exact ConcEngine.conc_engine_snapshots. Qed.
+Print Assumptions C04_every_schedule_readers_see_one_committed_state.
